@@ -1,7 +1,7 @@
 #!/bin/bash
 # ./sweep.sh "<ids>" "<seeds>" [tier]   — run checks over several master seeds; print non-clean runs
-ids="${1:-C01 C02 C04 C05 C06 C07 C08 C17 C28}"; seeds="${2:-1 2 3 4 5}"; tier="${3:-quick}"
 cd "$(dirname "$0")" && ./check build || exit 2
+ids="${1:-$(./sim/target/release/nervus-sim list)}"; seeds="${2:-1 2 3 4 5}"; tier="${3:-quick}"
 bad=0
 for id in $ids; do for s in $seeds; do
   out=$(VERIF_SEED=$s ./sim/target/release/nervus-sim check $id $tier 2>&1); rc=$?
